@@ -137,6 +137,34 @@ pub fn uci_stream(args: &[String]) {
     for sidx in 0..sessions {
         let mut lines: Vec<String> = vec![];
         let n = 2 + rng.below(10);
+        if rng.below(3) == 0 {
+            // an incremental game: the same start with a growing move list, re-sent prefixes, and other commands in between
+            let fen = super::walk::SEEDS[rng.below(super::walk::SEEDS.len() as u64) as usize];
+            let start = rng.below(2) == 0;
+            let base = if start { super::walk::SEEDS[0] } else { fen };
+            let head = if start { "position startpos".to_string() } else { format!("position fen {base}") };
+            let (moves, _) = rand_game(&mut rng, base, 14);
+            let mut k = 0usize;
+            while k <= moves.len() {
+                let l = if k == 0 { head.clone() } else { format!("{head} moves {}", moves[..k].join(" ")) };
+                lines.push(l);
+                match rng.below(6) {
+                    0 => lines.push("ucinewgame".to_string()),
+                    1 => lines.push("isready".to_string()),
+                    2 => {
+                        // re-send a shorter prefix (take-back in the GUI)
+                        let j = rng.below(k as u64 + 1) as usize;
+                        lines.push(if j == 0 { head.clone() } else { format!("{head} moves {}", moves[..j].join(" ")) });
+                    }
+                    3 => {
+                        let c = rng.below(2) == 0;
+                        lines.push(position_line(&mut rng, c));
+                    }
+                    _ => {}
+                }
+                k += 1 + rng.below(2) as usize;
+            }
+        }
         for _ in 0..n {
             let l = match rng.below(10) {
                 0 | 1 | 2 => position_line(&mut rng, false),
